@@ -40,18 +40,21 @@ inductive Dml
   | ins (k v : Nat)      -- INSERT INTO t VALUES (k, v)
   | del (k : Nat)        -- DELETE FROM t WHERE k = <k>
   | upd (k v : Nat)      -- UPDATE t SET v = <v> WHERE k = <k>
+  | clr                  -- TRUNCATE TABLE t (transactional in DuckDB like any DML)
 deriving DecidableEq, Repr
 
 def Dml.app : Dml → List Row → List Row
   | .ins k v, rs => rs ++ [(k, v)]
   | .del k, rs => rs.filter fun r => r.1 != k
   | .upd k v, rs => rs.map fun r => if r.1 == k then (k, v) else r
+  | .clr, _ => []
 
 /-- affected-row count reported by the engine -/
 def Dml.cnt : Dml → List Row → Nat
   | .ins _ _, _ => 1
   | .del k, rs => (rs.filter fun r => r.1 == k).length
   | .upd k _, rs => (rs.filter fun r => r.1 == k).length
+  | .clr, rs => rs.length
 
 structure W where
   tbl : Nat
@@ -76,6 +79,8 @@ inductive Stmt
   | failMulti                     -- a statement fakesnow explodes into several engine statements (MERGE) whose second part
                                   -- fails while binding (clause names a missing column → 2043/02000): the first part
                                   -- (temporary candidates table) has no visible effect, the failure is a Binder error
+  | touch                         -- a statement that binds against the database but changes no table rows and answers the
+                                  -- status row (COMMENT ON TABLE …): pins a lazy snapshot, otherwise no effect here
   | const                         -- SELECT 1: touches no table
 deriving DecidableEq, Repr
 
@@ -107,6 +112,7 @@ def loc (m : Mode) (com : Store) : Tx → Stmt → Store × Tx × Obs
   | .idle, .failMulti => (com, .idle, .sfErr true)
   | .idle, .failRun => (com, .idle, .rawRun)
   | .idle, .const => (com, .idle, .one)
+  | .idle, .touch => (com, .idle, .status)
   -- after BEGIN, nothing pinned yet
   | .fresh, .begin => match m with | .duck => (com, .aborted, .rawNested) | .ideal => (com, .fresh, .ignored)
   | .fresh, .commit => (com, .idle, .empty)
@@ -117,6 +123,7 @@ def loc (m : Mode) (com : Store) : Tx → Stmt → Store × Tx × Obs
   | .fresh, .failMulti => (com, .pinned com [], .sfErr true)
   | .fresh, .failRun => match m with | .duck => (com, .aborted, .rawRun) | .ideal => (com, .pinned com [], .rawRun)
   | .fresh, .const => (com, .fresh, .one)
+  | .fresh, .touch => (com, .pinned com [], .status)
   -- pinned
   | .pinned s ws, .begin => match m with | .duck => (com, .aborted, .rawNested) | .ideal => (com, .pinned s ws, .ignored)
   | .pinned _ ws, .commit => (com.apps ws, .idle, .empty)
@@ -127,6 +134,7 @@ def loc (m : Mode) (com : Store) : Tx → Stmt → Store × Tx × Obs
   | .pinned s ws, .failMulti => (com, .pinned s ws, .sfErr true)
   | .pinned s ws, .failRun => match m with | .duck => (com, .aborted, .rawRun) | .ideal => (com, .pinned s ws, .rawRun)
   | .pinned s ws, .const => (com, .pinned s ws, .one)
+  | .pinned s ws, .touch => (com, .pinned s ws, .status)
   -- aborted (reachable in duck mode only)
   | .aborted, .commit => (com, .idle, .empty)
   | .aborted, .rollback => (com, .idle, .empty)
